@@ -1342,6 +1342,43 @@ def replay_psi_zero(args):
     return (False, msg) if msg else (True, "held")
 
 
+# a sampling event with rho = 1 at an inner boundary that no lineage crosses (everything alive there is sampled)
+def _rho_one_problem():
+    import torchtree.evolution.bdsk as bd
+    t64 = lambda v: torch.tensor(v, dtype=torch.float64)
+    tips = [2.0, 2.0, 2.0]
+    tree = ((0, 1), 2)
+    hs = {(0, 1): 3.0, ((0, 1), 2): 4.0}
+    x0 = 6.0
+    ep = S.Epochs([0.0, 2.0], [2.0, 2.0], [1.0, 1.0], [0.5, 0.5], [0.0, 1.0], None)     # backward: rho = 1 at age 2
+    ode = S.ode_log_density(tree, tips, lambda s_: hs[s_], x0, ep, survival=True, rho_tips={0, 1, 2})
+    try:
+        d = bd.PiecewiseConstantBirthDeath(t64([2.0, 2.0]), t64([1.0, 1.0]), t64([0.5, 0.5]), rho=t64([1.0, 0.0]), origin=t64([x0]), times=t64([0.0, 4.0]), survival=True)
+        got = float(d.log_prob(t64(tips + [3.0, 4.0])).reshape(-1)[0])
+    except Exception as e:
+        if not _raised_in_repo(e):
+            raise
+        got = "%s: %s" % (type(e).__name__, str(e)[:100])
+    if isinstance(got, str) or not (abs(got - ode) <= 1e-6 * max(1.0, abs(ode))):
+        return "sampling event with rho = 1 at an inner boundary (age 2) where all three tips are sampled and no lineage crosses: log density %s, master equations %.8f" % (
+            got if isinstance(got, str) else repr(got), ode)
+    return None
+
+
+def ob_rho_one():
+    def fn():
+        msg = _rho_one_problem()
+        if msg:
+            raise Refuted(msg, witness={}, confirmed=True, replay={"kind": "custom", "contract": "C09", "func": "replay_rho_one", "args": {}})
+        return {"backend": "numeric (RK4 master equations vs real code)", "cases": 1, "statement": "rho = 1 at an inner boundary without crossing lineages: density = master equations"}
+    return fn
+
+
+def replay_rho_one(args):
+    msg = _rho_one_problem()
+    return (False, msg) if msg else (True, "held")
+
+
 # the MODEL wrapper with two options at once: the four ways of writing one process (absolute / relative shift times x origin / root edge)
 def _model_combo_values():
     import torchtree.evolution.bdsk as bd
@@ -1754,6 +1791,8 @@ def obligations(tier, seed):
     for removal in (None, 0.4):
         obs.append(Ob("C09.master_equations.psi_zero_recent_epoch[removal=%s]" % removal, "B", ob_psi_zero(removal),
                       clause="matches the master equations for a sampling scheme without serial sampling in the epoch that holds the rho-sampled tips", funcs=FUNCS))
+    obs.append(Ob("C09.master_equations.rho_one_at_inner_boundary", "B", ob_rho_one(),
+                  clause="matches the master equations for a sampling event that samples every lineage alive (rho = 1 is inside the unit interval)", funcs=FUNCS))
     obs.append(Ob("C09.model.options_combined[relative_times x origin_is_root_edge]", "B", ob_model_combo(),
                   clause="options given in a specification select the behaviour they name, also in combination (model wrapper against the master equations)", funcs=FUNCS))
     obs.append(Ob("C09.refine.default_grid", "B", ob_default_grid(), clause="unchanged when an epoch is split into sub-epochs with identical rates (default grid: boundaries that are sums of origin/m)", funcs=FUNCS))
